@@ -58,6 +58,17 @@ func (p *Parser) Parse(input string) (*ParserResult, error) {
 		result.Error = fmt.Errorf("input processing failed: %w", err)
 		return result, result.Error
 	}
+	return p.parseInput(inputResult)
+}
+
+// ParseSQL parses SQL text that is known to be SQL (for example read from
+// stdin): no file-or-SQL detection is applied to it.
+func (p *Parser) ParseSQL(content []byte) (*ParserResult, error) {
+	return p.parseInput(&InputResult{Type: InputTypeSQL, Content: content, Source: "stdin"})
+}
+
+func (p *Parser) parseInput(inputResult *InputResult) (*ParserResult, error) {
+	result := &ParserResult{}
 
 	// Use pooled tokenizer
 	tkz := tokenizer.GetTokenizer()
